@@ -720,6 +720,9 @@ def run_native(pid, n, scratch, tier, repo, seed):
         args = n.get("args", {}).get(tier, [])
         env = dict(os.environ)
         env.setdefault("ASAN_OPTIONS", "detect_leaks=0")
+        # model files are data: a source-only scratch copy (seedtest.sh) uses the bundled models of /repo
+        env["SSW_REPO"] = repo if os.path.isdir(os.path.join(repo, "model")) else "/repo"
+        env["TMPDIR"] = wd
         rc, so, se, _s, to = sh([exe] + [str(a) for a in args] + [str(seed)], timeout=n.get("timeout", 900), env=env)
         r["cmd"] = " ".join(cmd) + " && ./nat " + " ".join(str(a) for a in args)
         if to:
